@@ -82,7 +82,7 @@ def solveBody (eps : α) (st : SolveSt α) : SolveSt α :=
 
 /-- the decomposition loop; `fuel` = number of passes still allowed by `stop.maxIterations` -/
 def solveLoop (eps : α) : Nat → SolveSt α → SolveSt α
-  | 0, st => { st with stop := .maxIter }
+  | 0, st => { st with s := st.s.unshrink, stop := .maxIter }   -- `m_problem.unshrink()` after the loop (repair of F-C07-8)
   | fuel + 1, st =>
     let st' := solveBody eps st
     if st'.stop = .running then solveLoop eps fuel st' else st'
@@ -91,7 +91,7 @@ def solveLoop (eps : α) : Nat → SolveSt α → SolveSt α
 (`norm` = rebuild the vectors as arrays, the identity on the valid index ranges); `solveLoopWith id = solveLoop`
 (`solveLoopWith_id`, Lemmas/McSolve.lean) -/
 def solveLoopWith (norm : McBox α → McBox α) (eps : α) : Nat → SolveSt α → SolveSt α
-  | 0, st => { st with stop := .maxIter }
+  | 0, st => { st with s := st.s.unshrink, stop := .maxIter }   -- `m_problem.unshrink()` after the loop (repair of F-C07-8)
   | fuel + 1, st =>
     let st' := solveBody eps st
     let st' := { st' with s := norm st'.s }
